@@ -282,6 +282,103 @@ def gen_deps(L):
         raise TranslateError("process_pp_form: include no longer goes through recurse_dependencies")
 
 
+def tr_bool(s, env):
+    """boolean expressions over identifiers, integer literals, || && ! and comparisons -> Coq bool terms over N"""
+    toks = re.findall(r"\|\||&&|==|!=|<=|>=|<|>|!|\(|\)|[A-Za-z_][A-Za-z_0-9]*|\d+", s)
+    if "".join(toks) != re.sub(r"\s+", "", s):
+        raise TranslateError("cannot tokenize boolean expression %r" % s)
+    pos = [0]
+
+    def peek():
+        return toks[pos[0]] if pos[0] < len(toks) else None
+
+    def nxt():
+        pos[0] += 1
+        return toks[pos[0] - 1]
+
+    def atom():
+        t = nxt()
+        if t == "(":
+            e = orx()
+            if nxt() != ")":
+                raise TranslateError("expected )")
+            return e
+        if t == "!":
+            return "(negb %s)" % atom()
+        if t.isdigit():
+            return t
+        if t in env:
+            return env[t]
+        raise TranslateError("unknown identifier %s in %r" % (t, s))
+
+    def cmpx():
+        a = atom()
+        if peek() in ("==", "!=", "<", ">", "<=", ">="):
+            op = nxt()
+            b = atom()
+            return {"==": "(N.eqb %s %s)", "!=": "(negb (N.eqb %s %s))", "<": "(N.ltb %s %s)", "<=": "(N.leb %s %s)"}.get(op, None) % (a, b) if op in ("==", "!=", "<", "<=") \
+                else {">": "(N.ltb %s %s)", ">=": "(N.leb %s %s)"}[op] % (b, a)
+        return a
+
+    def andx():
+        a = cmpx()
+        while peek() == "&&":
+            nxt()
+            a = "(andb %s %s)" % (a, cmpx())
+        return a
+
+    def orx():
+        a = andx()
+        while peek() == "||":
+            nxt()
+            a = "(orb %s %s)" % (a, andx())
+        return a
+    e = orx()
+    if peek() is not None:
+        raise TranslateError("trailing tokens in %r" % s)
+    return e
+
+
+def gen_entry(L):
+    env = {"do_optimize": "do_optimize", "stepping": "stepping"}
+    src = read("src/classic/clvm_tools/clvmc.rs")
+    body = fn_body(src, "compile_clvm_text_maybe_opt")
+    m1 = re.search(r"\.\s*set_optimize\s*\(([^)]*)\)", body)
+    m2 = re.search(r"\.\s*set_frontend_opt\s*\(([^)]*)\)", body)
+    if not m1 or not m2:
+        raise TranslateError("compile_clvm_text_maybe_opt: set_optimize / set_frontend_opt not found")
+    L.append("(* clvmc.rs compile_clvm_text_maybe_opt: options derived for a program with a dialect stepping *)")
+    L.append("Definition lib_optimize (do_optimize : bool) (stepping : N) : bool := %s." % tr_bool(m1.group(1), env))
+    L.append("Definition lib_frontend_opt (do_optimize : bool) (stepping : N) : bool := %s." % tr_bool(m2.group(1), env))
+    fin = re.search(r"maybe_finalize_program_via_classic_optimizer\s*\(\s*allocator\s*,\s*runner\s*,\s*opts\s*,\s*(\w+)\s*,", body)
+    if not fin:
+        raise TranslateError("compile_clvm_text_maybe_opt: classic post-optimiser call changed shape")
+    L.append("Definition lib_post_opt (do_optimize : bool) : bool := %s." % tr_bool(fin.group(1), env))
+    tb = fn_body(src, "compile_clvm_text")
+    mt = re.search(r"compile_clvm_text_maybe_opt\s*\(\s*allocator\s*,\s*(true|false)\s*,", tb)
+    if not mt:
+        raise TranslateError("compile_clvm_text: does not call compile_clvm_text_maybe_opt with a literal flag")
+    L.append("Definition LIB_ENTRY_DO_OPTIMIZE : bool := %s." % mt.group(1))
+    ci = read("src/classic/clvm_tools/comp_input.rs")
+    m = re.search(r"if\s+let\s+Some\s*\(\s*stepping\s*\)\s*=\s*dialect\s*\.\s*stepping\s*\{\s*opts\s*=\s*opts\s*\.\s*set_optimize\s*\(([^)]*)\)\s*\.\s*set_frontend_opt\s*\(([^)]*)\)\s*;", ci)
+    if not m:
+        raise TranslateError("RunAndCompileInputData::new: option derivation changed shape")
+    L.append("(* comp_input.rs RunAndCompileInputData::new (run, cldb) *)")
+    L.append("Definition cli_optimize (do_optimize : bool) (stepping : N) : bool := %s." % tr_bool(m.group(1), env))
+    L.append("Definition cli_frontend_opt (do_optimize : bool) (stepping : N) : bool := %s." % tr_bool(m.group(2), env))
+    cm = fn_body(ci, "compile_modern")
+    fin = re.search(r"maybe_finalize_program_via_classic_optimizer\s*\(\s*allocator\s*,\s*runner\s*,\s*self\s*\.\s*opts\s*\.\s*clone\s*\(\s*\)\s*,\s*self\s*\.\s*(\w+)\s*,", cm)
+    if not fin:
+        raise TranslateError("compile_modern: classic post-optimiser call changed shape")
+    L.append("Definition cli_post_opt (do_optimize : bool) : bool := %s." % tr_bool(fin.group(1), env))
+    # both tools build their options from the same constructor
+    cmds = read("src/classic/clvm_tools/cmds.rs")
+    for fn in ("cldb", "launch_tool"):
+        b = fn_body(cmds, fn)
+        if not re.search(r"RunAndCompileInputData::new\s*\(\s*&mut\s+allocator\s*,\s*&parsed_args\s*\)", b) or not re.search(r"\.\s*compile_modern\s*\(", b):
+            raise TranslateError("%s no longer compiles through RunAndCompileInputData::new + compile_modern" % fn)
+
+
 def gen_consts():
     L = []
     L.append("(* GENERATED by /verif/translator/gen_consts.py from /repo's current source. Do not edit. *)")
@@ -296,5 +393,7 @@ def gen_consts():
     gen_optimize(L)
     L.append("")
     gen_deps(L)
+    L.append("")
+    gen_entry(L)
     L.append("")
     return "\n".join(L)
